@@ -558,7 +558,7 @@ struct CppWorld : World {
                 Cipher &C = c.c[op.u(0) % NC];
                 if (!C.live) continue;
                 size_t len = (size_t)(op.u(1) % 25);
-                Bytes nb = bytes_of(len, op.u(2) ^ 0x6e);
+                Bytes nb = bytes_of(len, op.u(2) ^ 0x6e ^ c.salt);
                 uint8_t full[16] = {0};
                 if (len >= 16) memcpy(full, nb.data(), 16); else if (len) memcpy(full + 16 - len, nb.data(), len);
                 GuardBuf g(len, 1, false);
